@@ -117,10 +117,10 @@ def _compiles(py, flags):
         return False
 
 
-def xsd_match(pattern, version, dotall, subject, xpath=False):
+def xsd_match(pattern, version, dotall, subject, xpath=False, icase=False):
     """concrete XSD matcher for replay: the reference IR interpreted by a backtracking-free subset construction"""
     if xpath:
-        ref = rx.XsdRef('^(?:' + pattern + ')$', xsd_version=version, dotall=dotall, blocks=BLOCKS, xpath=True).parse()
+        ref = rx.XsdRef('^(?:' + pattern + ')$', xsd_version=version, dotall=dotall, blocks=BLOCKS, xpath=True, icase=icase).parse()
     else:
         ref = rx.XsdRef(pattern, xsd_version=version, dotall=dotall, blocks=BLOCKS).parse()
 
@@ -524,3 +524,98 @@ def _run_history():
 def replay_language_after_history(pattern, version, dotall, subject, xpath=False):
     _run_history()
     return replay_language(pattern, version, dotall, subject, xpath)
+
+
+# --- added after round-2 seeded changes: the i flag (F&O 5.6.2): normal characters and character ranges also match their case-variants,
+#     category / block / multi-character escapes are NOT affected ------------------------------------------------------------------------
+
+I_ATOMS = ['a', 'K', 'Q', chr(0xe9), chr(0xdf), chr(0x3c3), chr(0x131), chr(0x212a), chr(0x1c5), '1', '\\.', '[a-c]', '[^a-c]', '[^Q]', '[A-Z]', '[0-9]',
+           '[k-m5]', '\\p{Lu}', '\\P{Lu}', '\\p{Ll}', '\\P{Ll}', '\\p{Lt}', '\\P{Lt}', '\\p{L}', '\\P{L}', '\\p{Nd}', '\\P{Nd}', '\\p{IsBasicLatin}',
+           '\\P{IsBasicLatin}', '\\p{IsGreek}', '\\d', '\\D', '.', '[\\d]', '[\\dx]', '[^\\dx]', '\\i', '\\I', '\\c', '\\C']
+I_CLASS_ESCAPES = ['[\\p{Lu}]', '[^\\p{Lu}]', '[\\P{Lu}x]', '[\\p{Ll}1]', '[\\p{Lu}-[A-C]]']
+I_SUBTRACTION = ['[A-Z-[IO]]', '[a-zI-[i]]', '[a-z-[E]]']
+# recorded findings under the i flag: pattern classes decided by their own witness obligations (the main i sweep has no bracket
+# expression containing a category escape and no class subtraction)
+I_KNOWN = {'C12-icase-class-escape': I_CLASS_ESCAPES, 'C12-icase-subtraction': I_SUBTRACTION}
+
+
+def _icase_family(atoms, tier):
+    pats = []
+    for a in atoms:
+        for qn in ('', '*', '{2}', '?'):
+            pats.append(a + qn)
+    step = 1 if tier == 'thorough' else 7
+    k = 0
+    for a in atoms:
+        for b in atoms:
+            k += 1
+            if k % step == 0:
+                pats.append(a + b)
+                pats.append(a + '|' + b + '+')
+    return list(dict.fromkeys(pats))
+
+
+def replay_language_icase(pattern, version, subject):
+    """through the public function: fn:matches(subject, '^(?:P)$', 'i') against the reference matcher with case-variants"""
+    got = ev(T['match_flags'], s=subject, p='^(?:' + pattern + ')$', f='i') == [True]
+    return got == xsd_match(pattern, version, False, subject, xpath=True, icase=True)
+
+
+def _icase_sweep(ctx, atoms, version='1.0'):
+    q = Queries(timeout_s=20, diff_binary=False)
+    cex = []
+    counts = {}
+    pats = _icase_family(atoms, ctx.get('tier', 'quick'))
+    t0 = time.time()
+    for p in pats:
+        tag = 'P=%r xsd=%s flags=i xpath' % (p, version)
+        try:
+            py = translate_pattern('^(?:' + p + ')$', flags=re.IGNORECASE, xsd_version=version)
+        except RegexError as e:
+            cex.append(dict(call='replay_language_icase(%r, %r, %r)' % (p, version, 'a'), message='%s: valid pattern rejected: %s' % (tag, e)))
+            continue
+        ref = rx.XsdRef('^(?:' + p + ')$', xsd_version=version, blocks=BLOCKS, xpath=True, icase=True).parse()
+        try:
+            ir = rx.from_sre(py, re.IGNORECASE)
+            res, wit, ncls, dt = rx.compare(ir, ref, timeout_ms=int(q.timeout_s * 1000))
+        except rx.NotRegular as e:
+            q.log.append(dict(query=tag, result='not-encodable', why=str(e)))
+            q.unknown += 1
+            continue
+        q.n += 1
+        q.solver_s += dt
+        counts[res] = counts.get(res, 0) + 1
+        if res == 'unknown':
+            q.unknown += 1
+            q.log.append(dict(query=tag, result='unknown', classes=ncls, s=round(dt, 2)))
+        elif res == 'sat':
+            q.log.append(dict(query=tag, result='sat', witness=wit, classes=ncls, s=round(dt, 2)))
+            cex.append(dict(call='replay_language_icase(%r, %r, %r)' % (p, version, wit),
+                            message='%s: python pattern %r and XSD semantics with the i flag disagree on subject %r' % (tag, py[:80], wit)))
+        if time.time() - t0 > ctx.get('budget', 300) * 0.9:
+            q.log.append(dict(query='budget exhausted', done=counts))
+            q.unknown += 1
+            break
+    q.samples.extend(['%r' % p for p in pats[:12]])
+    res = q.result(cex[:20], detail=dict(programs=sum(counts.values()), outcomes=counts, distinct_patterns=len(pats)))
+    res['detail']['queries'] = [x for x in q.log if x.get('result') != 'unsat'][:60]
+    return res
+
+
+@ob(engine='z3', budget=400, tbudget=2000, bound='all subject strings; flag i; XPath mode ^(?:P)$; P from a family over 40 atoms (literals with and '
+    'without case-variants, ranges, negated groups, category / block / digit / name escapes) x 4 quantifiers, and pairs (quick: every 7th); '
+    'case-variants = classes of the simple Unicode case mappings', funcs=[R + ':translate_pattern'])
+def language_icase(ctx):
+    return _icase_sweep(ctx, I_ATOMS)
+
+
+@ob(engine='z3', budget=120, kind='witness', finding='C12-icase-class-escape', bound='flag i: bracket expressions containing a category escape',
+    funcs=[R + ':translate_pattern', 'elementpath/regex/character_classes.py:CharacterClass'])
+def known_icase_class_escape(ctx):
+    return _icase_sweep(dict(ctx, tier='quick'), I_KNOWN['C12-icase-class-escape'])
+
+
+@ob(engine='z3', budget=120, kind='witness', finding='C12-icase-subtraction', bound='flag i: character class subtraction whose parts differ in case',
+    funcs=[R + ':translate_pattern', 'elementpath/regex/character_classes.py:CharacterClass'])
+def known_icase_subtraction(ctx):
+    return _icase_sweep(dict(ctx, tier='quick'), I_KNOWN['C12-icase-subtraction'])
